@@ -178,6 +178,11 @@ def make_builtins(I):
 
     @reg("sum")
     def _sum(it, a, k):
+        if isinstance(a[0], DictGen):
+            h = getattr(it, "dictgen_sum", None)
+            if h is None:
+                raise Unsupported("sum over a generator of dict items needs a contract-level summary")
+            return h(it, a[0], a[1] if len(a) > 1 else 0)
         return sum_model(it, a[0], a[1] if len(a) > 1 else 0)
 
     @reg("all")
@@ -312,6 +317,18 @@ def make_builtins(I):
         items = concrete_iter(it, v)
         if items is not None and not any(is_symval(x) for x in items) and not k:
             return sorted(items)
+        if items is not None and not any(is_symval(x) for x in items) and set(k) <= {"key", "reverse"} and isinstance(k.get("reverse", False), bool):
+            # concrete items with a key function: the keys are computed by interpreting the function; the
+            # (stable) sort itself is CPython's, provided every key is concrete
+            kf = k.get("key")
+            keys = [it.call(kf, [x]) for x in items] if kf is not None else list(items)
+
+            def conc(z):
+                return not is_symval(z) and (not isinstance(z, (tuple, list)) or all(conc(y) for y in z))
+
+            if all(conc(z) for z in keys):
+                order = sorted(range(len(items)), key=lambda i: keys[i], reverse=k.get("reverse", False))
+                return [items[i] for i in order]
         if items is not None and not k and all(isinstance(x, tuple) and x and not is_symval(x[0]) for x in items):
             firsts = [x[0] for x in items]
             if len(set(firsts)) == len(firsts):
@@ -327,6 +344,17 @@ def make_builtins(I):
             r = h(it, f, a[1]) if h else None
             if r is not None:
                 return r
+        if len(a) == 2 and isinstance(a[1], KeyIter) and getattr(it, "dictgen_sum", None) is not None and a[1].mode in ("values", "keys"):
+            # map(f, d.values()) over a symbolic dict: element term over ONE generic stored item (see DictGen)
+            ki = a[1]
+            s_ = z3.Const(it.ctx.fresh_name("dg_key"), ki.kty.sort())
+            b_ = z3.Const(it.ctx.fresh_name("dg_val"), ki.vty.sort()) if ki.mode == "values" else None
+            it.term_mode += 1
+            try:
+                v = it.call(f, [it.lift(b_, ki.vty) if ki.mode == "values" else it.lift(s_, ki.kty)])
+            finally:
+                it.term_mode -= 1
+            return DictGen(ki, s_, b_, v, z3.BoolVal(True))
         items = concrete_iter(it, a[1])
         if items is not None and len(a) == 2:
             return [it.call(f, [x]) for x in items]
@@ -553,7 +581,7 @@ def to_tuple(it, v):
         return tuple(items)
     if isinstance(v, (SymSeq, SymList)):
         return SymSeq(v.length, v.arr, v.ety, "tuple", getattr(v, "meta", None))
-    if isinstance(v, KeyIter):
+    if isinstance(v, (KeyIter, DictGen)):
         return v
     if isinstance(v, SymObj) and "$tuple" in v.fields:
         return v.fields["$tuple"]
@@ -1760,6 +1788,41 @@ def comp_filter(it, e, env, kind, s):
     return r
 
 
+class DictGen:
+    """(elem(s, d[s]) for s, b in d.items() if cond(s, b)) over a symbolic dict: element and filter as terms over
+    ONE generic stored item (key constant `key`, value term `val`).  Only consumers with a contract-level
+    summary accept it (sum: it.dictgen_sum)."""
+
+    def __init__(self, ki, key, val, elem, cond):
+        self.ki, self.key, self.val, self.elem, self.cond = ki, key, val, elem, cond
+
+
+def comp_dictgen(it, e, env, ki):
+    from .interp import Env
+
+    g0 = e.generators[0]
+    s = z3.Const(it.ctx.fresh_name("dg_key"), ki.kty.sort())
+    env3 = Env(env)
+    if ki.mode == "items":
+        b = z3.Const(it.ctx.fresh_name("dg_val"), ki.vty.sort())
+        x = (it.lift(s, ki.kty), it.lift(b, ki.vty))
+    elif ki.mode == "keys":
+        b = None
+        x = it.lift(s, ki.kty)
+    else:
+        b = z3.Const(it.ctx.fresh_name("dg_val"), ki.vty.sort())
+        x = it.lift(b, ki.vty)
+    it.assign(g0.target, x, env3)
+    it.term_mode += 1
+    try:
+        conds = [it.truth(it.eval_expr(c, env3)) for c in g0.ifs]
+        v = it.eval_expr(e.elt, env3)
+    finally:
+        it.term_mode -= 1
+    conds = [z3.BoolVal(c) if isinstance(c, bool) else c for c in conds]
+    return DictGen(ki, s, b, v, z3.And(*conds) if conds else z3.BoolVal(True))
+
+
 def comp_keyiter(it, e, env, kind, ki):
     """{fk(s): fv(s, b) for s, b in d.items()} over a symbolic dict, when fk is the identity or
     a registered invertible re-keying (it.invertible: z3 decl -> inverse decl, extra arguments
@@ -1768,6 +1831,8 @@ def comp_keyiter(it, e, env, kind, ki):
     from .interp import Env
 
     if kind != "dict":
+        if kind == "gen" and getattr(it, "dictgen_sum", None) is not None:
+            return comp_dictgen(it, e, env, ki)
         raise Unsupported("non-dict comprehension over a symbolic dict view (needs a summary)")
     g0 = e.generators[0]
     s = z3.Const(it.ctx.fresh_name("rk"), ki.kty.sort())
@@ -2055,7 +2120,7 @@ def _functools(it):
 
     def reduce(it_, a, k):
         f, seq = a[0], a[1]
-        items = concrete_iter(it_, seq)
+        items = None if isinstance(seq, DictGen) else concrete_iter(it_, seq)
         if items is None:
             h = getattr(it_, "reduce_hook", None)
             if h:
